@@ -185,7 +185,32 @@ func e7Case(seed uint64, n int, parent string, race bool) Case {
 				nd.supplied = true
 				r.Add("refilters", 1)
 				sinceBarrier += 6
-			case x < 92 && len(t.nodes) < 14:
+			case x < 89:
+				// close a plain subscriber while events may be in flight: nobody else
+				// may notice (a fresh one replaces it)
+				var subs []*node
+				for _, x := range t.nodes {
+					if x.kind == "sub" && !isClosed(x.done) {
+						subs = append(subs, x)
+					}
+				}
+				if len(subs) > 0 {
+					subs[rng.Intn(len(subs))].closer()
+					r.Add("mid-flow-closes", 1)
+				}
+				if len(t.nodes) < 16 {
+					var pubs []*node
+					for _, x := range t.nodes {
+						if x.isController() && !isClosed(x.done) {
+							pubs = append(pubs, x)
+						}
+					}
+					if _, err := t.addChild(pubs[rng.Intn(len(pubs))], "sub", nil, true); err != nil {
+						r.V("C06", "tree-build-error", "%v", err)
+						failed = true
+					}
+				}
+			case x < 94 && len(t.nodes) < 14:
 				if err := t.grow(rng, 1, 3, fam, filteredKinds, true); err != nil {
 					r.V("C06", "tree-build-error", "%v", err)
 					failed = true
